@@ -10,10 +10,10 @@ ID = 'C05'
 LEVEL = 'exploration'
 BUDGET = {'quick': (8000, 80.0), 'thorough': (100000, 1500.0)}
 CHUNK = 10
-RULE = ('a bystander stack (either data link layer) with 0-3 CAs in the claim states operational / not started / waiting for veto / cannot-claim (real claim histories '
+RULE = ('a bystander stack (either data link layer) with 0-3 CAs in the claim states operational / not started / waiting for veto / cannot-claim / bypassed-then-lost (real claim histories '
         'with a scripted contender) and ECU-level listeners (unfiltered, integer, predicate); per run: single frames to all 256 destinations x {PDU1, PDU2} (complete '
         'sweep, 512 frames), complete foreign RTS/CTS sessions and a BAM between two reference nodes (FD sessions and multi-PG on J1939-22), and frames with every '
-        'can.Message flag combination (11-bit, remote, error). non-trivial = the sweep ran with at least one listener registered; distinct = distinct scenario JSON')
+        'can.Message flag combination (11-bit, remote, error), and an RTS/CTS session whose destination loses its only listener after the first data packet. non-trivial = the sweep ran with at least one listener registered; distinct = distinct scenario JSON')
 FAULT_COUNTERS = {'foreign transport frames between two other nodes': 'foreign_tp_frames', 'flagged frames (11-bit / remote / error)': 'flag_frames', 'sessions whose destination lost its only listener mid-transfer': 'orphaned_sessions', 'single frames of the destination sweep': 'sweep_frames'}
 REQUIRED_PROBES = ['sweep_frames', 'deliveries_judged', 'foreign_tp_frames', 'flag_frames', 'addressless_cas', 'pdu2_frames', 'orphaned_sessions']
 P1, P2, X = 0xA1, 0xA2, 0x7D
